@@ -688,6 +688,8 @@ pub fn gen_c20_unbounded(rng: &mut Rng) -> J {
     let ps = gen_params(rng, &[(1, 1), (2, 3), (3, 3), (6, 2)]);
     let mut ls = gen_land_general(rng, false);
     ls.nan_holes = false;
+    // (no pits: the threshold has to be met by every loop by construction)
+    ls.abyss = None;
     let inner = *rng.pick(&[1u64, 1, 2, 3, 7, 10, 100, 1000]);
     let steps = *rng.pick(&[u64::MAX, u64::MAX, u64::MAX - 1, 1 << 63, 1 << 62, 1_000_000_000_000_000_000, 10_000_000_000_000, 1 << 40]);
     let cfg = OptCfg {
